@@ -9,7 +9,8 @@ CLAIMS = ("R1 in ExternalSortExec::execute every path that sorts (reads order_by
           "R4 every call of the inner-join-only spill probe (probe_partition) is dominated by the `join_type == Inner` and `filter.is_none()` tests; "
           "R5 in the spilled sort (generate_runs, merge, streaming_k_way_merge) and spilled aggregation, evaluation errors are propagated, never turned into 'rows compare equal'; "
           "R7 the spilled sort never decides an order from a subset of the keys: inside ExternalSortExec the order_by list is only iterated whole or handed on whole (no first()/last()/get(i)/[i]/split on it); "
-          "R8 the partition router shared by the spilled join and the spilled aggregation (partition_batch_by_hash) sends every input row to exactly one partition: each iteration of its row loop reaches the push, on every path (a skipped row is a lost group for GROUP BY / DISTINCT / UNION once they spill).")
+          "R8 the partition router shared by the spilled join and the spilled aggregation (partition_batch_by_hash) sends every input row to exactly one partition: each iteration of its row loop reaches the push, on every path (a skipped row is a lost group for GROUP BY / DISTINCT / UNION once they spill); "
+          "R9 in the k-way merge, buffered (run,row) references are resolved before the run buffer they point into is replaced or dropped: no path leads from a push onto the pending-rows list to a store into a run buffer without passing a flush (clear of that list, or its is_empty() == true edge).")
 NOT_DECIDED = "equality of spilled and in-memory answers in general (values); compare_array_values' unsupported-type fallback is reported under C01.R2."
 
 SP = "physical::operators::spillable"
@@ -195,6 +196,45 @@ def whole_key_and_routing(F, R):
         avoid = frozenset(c.bb for c in pushes)
         skips = nx.bb in pb.reachable(body, avoid=avoid)
         R.check(not skips, "C08.R8", "partition_batch_by_hash:every-row-routed", "an iteration of the row loop can reach the next row without pushing the row into any partition: the router is shared with the spilled aggregation (GROUP BY / DISTINCT / UNION), where e.g. a NULL key is a legitimate group, so those rows vanish once the operator spills", pb.loc(body), dict(pushes=len(pushes)))
+    # ---- R9: stale row references in the k-way merge
+    R.rule("C08.R9", "K3 ordering on paths", "streaming_k_way_merge: push(pending rows) ... store(run buffer) only through a flush")
+    km = F.fn(ES + "::streaming_k_way_merge")
+    bmb = [c for c in km.calls() if c.name == ES + "::build_merged_batch"]
+    R.floor("C08.R9", "build_merged_batch calls in streaming_k_way_merge", len(bmb), 1)
+    if bmb:
+        def root_(op):
+            o = origin(km, op)
+            n_ = 0
+            while o[0] == "call" and o[1].name.rsplit("::", 1)[-1] in ("deref", "deref_mut", "as_slice", "as_mut_slice", "as_ref", "as_mut", "borrow", "borrow_mut") and n_ < 4:
+                o = origin(km, o[1].args[0])
+                n_ += 1
+            return o
+        bufs, rows = root_(bmb[0].args[1]), root_(bmb[0].args[2])
+        def is_(op, what):
+            o = root_(op)
+            return o[0] == what[0] and (o[1] is what[1] if what[0] == "call" else o[1] == what[1])
+        pushes = [c.bb for c in km.calls() if c.name.endswith("Vec::<T, A>::push") and is_(c.args[0], rows)]
+        flush = {c.target if c.target is not None else c.bb for c in km.calls() if c.name.rsplit("::", 1)[-1] == "clear" and is_(c.args[0], rows)}
+        for sb in range(km.n):
+            si = km.switch_info(sb)
+            if si and si[0] == "bool" and si[1]:
+                o = origin(km, "c:" + si[1])
+                if o[0] == "call" and o[1].name.rsplit("::", 1)[-1] == "is_empty" and is_(o[1].args[0], rows):
+                    flush.add(si[2][True])
+                elif o[0] == "rv" and o[1][0] == "un" and o[1][1] == "Not":
+                    o2 = origin(km, o[1][2])
+                    if o2[0] == "call" and o2[1].name.rsplit("::", 1)[-1] == "is_empty" and is_(o2[1].args[0], rows):
+                        flush.add(si[2][False])
+        stores = []
+        for i, j, dst, rv, line in km.stmts():
+            if dst.endswith("|*"):
+                o = origin(km, "c:" + dst.split("|")[0])
+                if o[0] == "call" and o[1].name.rsplit("::", 1)[-1] == "index_mut" and is_(o[1].args[0], bufs):
+                    stores.append(i)
+        R.floor("C08.R9", "stores into run buffers", len(stores), 2)
+        R.floor("C08.R9", "pushes onto the pending-rows list", len(pushes), 1)
+        stale = [s_ for s_ in stores if any(s_ in km.reachable(p_, avoid=frozenset(flush)) for p_ in pushes)]
+        R.check(not stale, "C08.R9", "streaming_k_way_merge:flush-before-buffer-replaced", "a run buffer can be replaced or dropped while the pending-rows list still holds (run,row) references into it: those rows are later resolved against another batch (wrong/lost rows) or out of range (panic) once a run spans more than one read batch", km.loc(stale[0]) if stale else km.loc(), dict(stores=len(stores), pushes=len(pushes), flush_points=len(flush)))
     users = {F.bodies[c.fn.path].get("root") or c.fn.path for c in F.callers_of(pb.path)}
     R.ok("C08.R8", "partition_batch_by_hash:callers", dict(callers=sorted(users)), nontrivial=False)
 
